@@ -107,6 +107,7 @@ SHARE = [
     (r"^c04_send_loop_3$", ["C07"]),
     (r"^c04_send_loop_4$", ["C16", "C01"]),
     (r"^c04_send_loop_5$", ["C17"]),
+    (r"^c04_send_loop_[67]$", ["C16", "C17"]),
     (r"^c04_session_present$", ["C06"]),
     (r"^c04_current_k[13]_preservenothing_q2$", ["C01"]),
     (r"^c04_close_pendingack$", ["C01"]),
@@ -132,7 +133,6 @@ SHARE = [
     (r"^c18_close_retry_limit_l2c2$", ["C15"]),
     (r"^c07_connack_success$", ["C17", "C14"]),
     (r"^c01_real_(fail_q1|ok_q1_puback)$", ["C06"]),
-    (r"^c03_body_publish5_q1_t1_r4$", ["C11", "C05"]),
 ]
 
 
